@@ -254,6 +254,9 @@ func TestVerifC13(t *testing.T) {
 				r.HarnessError("no mapping schema for %s (%s)", m.NPath, m.Path)
 				continue
 			}
+			if sch.Free {
+				continue
+			}
 			mappings++
 			// sibling scalars (non-exempt): the direct values of this mapping's keys and, for keys
 			// that hold sections, the first scalar found below each of them
